@@ -121,8 +121,13 @@ def run(code, calldata=b"", address=0, caller=0, origin=0, value=0, storage=None
                 if len(stack) < n + 1:
                     raise Halt("underflow")
                 stack[-1], stack[-1 - n] = stack[-1 - n], stack[-1]
+            elif 0xA0 <= op <= 0xA4:
+                off, size = pop(), pop()
+                for _ in range(op - 0xA0):
+                    pop()
+                mread(off, size)  # (logs are not compared)
             elif name is None:
-                raise Halt("unsupported" if op in (0x31, 0x3A, 0x40, 0x41, 0x42, 0x43, 0x44, 0x45, 0x46, 0x47, 0x48, 0x5A, 0xA0, 0xA1, 0xA2, 0xA3, 0xA4, 0xF0, 0xF1, 0xF2, 0xF4, 0xF5, 0xFA, 0xFF) else "invalid")
+                raise Halt("unsupported" if op in (0x31, 0x3A, 0x40, 0x41, 0x42, 0x43, 0x44, 0x45, 0x46, 0x47, 0x48, 0x5A, 0xF0, 0xF1, 0xF2, 0xF4, 0xF5, 0xFA, 0xFF) else "invalid")
             elif name in ARITY:
                 args = [pop() for _ in range(ARITY[name])]
                 push(PY[name](*args))
